@@ -3,7 +3,7 @@ CONSTANTS
   PlainNames <- MC_Names2
   HostileNames <- MC_NoHostile
   MaxOps = 2
-  MaxIno = 8
+  MaxIno = 10
   Cfg <- MC_Cfg_ifh
   TaintOn = FALSE
   Mode = "c05"
